@@ -58,5 +58,23 @@ struct FwdRange
     FwdIt<T> begin() const noexcept { return {b}; }
     FwdIt<T> end() const noexcept { return {e}; }
 };
+
+// single-pass input iterator whose operations are opaque calls: every increment / dereference / comparison
+// is an event of the summary (C15: "exactly as many items are consumed as the parameter holds")
+template <class T>
+struct InIt
+{
+    using iterator_category = std::input_iterator_tag;
+    using value_type = T;
+    using difference_type = std::ptrdiff_t;
+    using pointer = const T*;
+    using reference = const T&;
+    void* state;
+    reference operator*() const;
+    InIt& operator++();
+    InIt operator++(int);
+    friend bool operator==(const InIt& a, const InIt& b) noexcept { return a.state == b.state; }
+    friend bool operator!=(const InIt& a, const InIt& b) noexcept { return a.state != b.state; }
+};
 }  // namespace cv
 #endif
